@@ -165,7 +165,7 @@ func refStmtValid(st refStmt, b string) bool {
 
 func C14(r *ck.Run) {
 	requireMapOrderInstrumented()
-	r.Rule("(a) every glob pattern over {a,b,/,*,?} up to a length bound × every subject over {a,b,/}; (b) every policy of 1-2 statements from a menu (effect × principal shape × action shape × resource shape, string-or-array JSON forms) × caller × action × resource, evaluated under EVERY iteration order of the policy's maps; (c) a menu of valid and invalid documents validated directly under every map order and put through HTTP; distinct = distinct (pattern,subject) / (policy,query) / document")
+	r.Rule("(a) every glob pattern over {a,b,/,*,?} up to a length bound × every subject over {a,b,/} and (one shorter) over {a,/,*,?}; (b) every policy of 1-2 statements from a menu (effect × principal shape × action shape × resource shape, string-or-array JSON forms) × caller × action × resource, evaluated under EVERY iteration order of the policy's maps; (c) a menu of valid and invalid documents validated directly under every map order and put through HTTP; distinct = distinct (pattern,subject) / (policy,query) / document")
 	r.Assume("map iteration order of package auth is owned by the explorer through the overlay (range <map> → vmap.Keys)")
 	iam := c14IAM{map[string]bool{"u1": true, "u2": true, "u3": true}}
 	b := "bkt"
@@ -176,7 +176,9 @@ func C14(r *ck.Run) {
 		pl, sl = 5, 6
 	}
 	pats := allStrings("ab/*?", pl)
+	// subjects may contain the glob characters themselves (they are legal key characters)
 	subs := allStrings("ab/", sl)
+	subs = append(subs, allStrings("a/*?", sl-1)...)
 	r.Sharded(16, func() {
 		var rs auth.Resources
 		for pi, p := range pats {
@@ -199,7 +201,7 @@ func C14(r *ck.Run) {
 		menu := c14Menu(b, r.Thorough())
 		callers := []string{"u1", "u2", "u3"}
 		qactions := []string{"s3:GetObject", "s3:PutObject", "s3:ListBucket", "s3:GetBucketAcl"}
-		qres := []string{"", "k1", "dir/x", "obj1"}
+		qres := []string{"", "k1", "dir/x", "obj1", "dir/", "dir//x", "dir/x/"}
 		evalPolicy := func(stmts []c14Stmt, tag string) {
 			var js []string
 			var ref []refStmt
